@@ -103,6 +103,9 @@ type Run struct {
 	digest   uint64
 	NDraws   uint64
 	sitePol  map[string]int
+	siteSeen map[string]int // policy each site actually got in the current schedule
+	schedNo  int
+	orderSum uint64
 	DefPol   int // -1: draw per site (swarm); else fixed policy for all sites
 	Pinned   map[string][]int // site -> explicit permutation of the sorted keys
 	// PinKeys pins, at every site whose id starts with PinSitePrefix, the visit order of any
@@ -127,7 +130,7 @@ var active atomic.Pointer[Run]
 
 // NewRun creates a run; Activate makes it current for the process.
 func NewRun(seed uint64) *Run {
-	return &Run{Seed: seed, r: newRng(seed), digest: 14695981039346656037, sitePol: map[string]int{}, DefPol: -1,
+	return &Run{Seed: seed, r: newRng(seed), digest: 14695981039346656037, sitePol: map[string]int{}, siteSeen: map[string]int{}, DefPol: -1,
 		NonCanon: map[string]int{}, MultiKey: map[string]int{}, Probes: map[string]int{},
 		MaxSteps: 5_000_000, MaxKeys: 2_000_000}
 }
@@ -169,7 +172,7 @@ func (r *Run) Note(s string, a int) {
 func (r *Run) Digest() uint64 {
 	r.mu.Lock()
 	defer r.mu.Unlock()
-	return r.digest
+	return r.digest ^ (r.orderSum * 0x94d049bb133111eb)
 }
 
 // Draw returns a value in [0,n). n <= 1 returns 0 without consuming anything.
@@ -282,8 +285,12 @@ func Keys[M ~map[K]V, K comparable, V any](site string, m M) []K {
 	if len(ks) < 2 {
 		return ks
 	}
+	var keyHash uint64 = 14695981039346656037
 	if sk, ok := any(ks).([]string); ok {
 		sort.Strings(sk)
+		for _, k := range sk {
+			keyHash = (keyHash ^ fnv64(k)) * 1099511628211
+		}
 		if r.PinKeys != nil && strings.HasPrefix(site, r.PinSitePrefix) {
 			if perm, ok := r.PinKeys[strings.Join(sk, ",")]; ok && len(perm) == len(sk) {
 				applyPerm(perm, func(i, j int) { ks[i], ks[j] = ks[j], ks[i] })
@@ -291,42 +298,43 @@ func Keys[M ~map[K]V, K comparable, V any](site string, m M) []K {
 				r.MultiKey[site]++
 				r.NonCanon[site]++
 				r.PinHits++
-				r.hash(site, len(ks), -3)
+				r.orderSum += (fnv64(site) ^ keyHash*31 ^ 0x7777) * 0x9e3779b97f4a7c15
 				r.mu.Unlock()
 				return ks
 			}
 		}
 	} else {
 		sort.Slice(ks, func(i, j int) bool { return lessAny(ks[i], ks[j]) })
+		for _, k := range ks {
+			keyHash = (keyHash ^ fnv64(fmt.Sprint(k))) * 1099511628211
+		}
 	}
-	r.order(site, len(ks), func(i, j int) { ks[i], ks[j] = ks[j], ks[i] })
+	r.order(site, len(ks), keyHash, func(i, j int) { ks[i], ks[j] = ks[j], ks[i] })
 	return ks
 }
 
 // order permutes n canonically sorted elements in place through swap.
-func (r *Run) order(site string, n int, swap func(i, j int)) {
+//
+// The decision is a pure function of (run seed, schedule number, site, key set):
+// it does not consume the sequential choice stream, so it cannot depend on the
+// order in which un-instrumented dependencies (yaml, mapstructure: their own
+// map iteration is random) happen to call back into the library.
+func (r *Run) order(site string, n int, keyHash uint64, swap func(i, j int)) {
 	r.mu.Lock()
 	r.MultiKey[site]++
-	if pin, ok := r.Pinned[site]; ok && len(pin) == n && (r.PinOnce == nil || !r.PinOnce[site+"/used"]) {
-		if r.PinOnce != nil && r.PinOnce[site] {
-			r.PinOnce[site+"/used"] = true
-		}
-		r.mu.Unlock()
-		applyPerm(pin, swap)
-		r.mu.Lock()
-		r.NonCanon[site]++
-		r.hash(site, n, -2)
-		r.mu.Unlock()
-		return
-	}
-	pol, ok := r.sitePol[site]
+	pol, fixed := r.sitePol[site]
+	sched := r.schedNo
+	def := r.DefPol
 	r.mu.Unlock()
-	if !ok {
-		if r.DefPol >= 0 {
-			pol = r.DefPol
+	x := r.Seed ^ (uint64(sched) * 0x9e3779b97f4a7c15)
+	siteHash := fnv64(site)
+	if !fixed {
+		if def >= 0 {
+			pol = def
 		} else {
-			// swarm: most sites canonical, some perturbed
-			switch v := r.Draw("pol:"+site, 8); {
+			// swarm: per schedule, some sites canonical, some perturbed
+			y := x ^ siteHash
+			switch v := splitmix(&y) % 8; {
 			case v < 3:
 				pol = OrdSorted
 			case v < 4:
@@ -337,49 +345,59 @@ func (r *Run) order(site string, n int, swap func(i, j int)) {
 				pol = OrdShuffle
 			}
 		}
-		r.mu.Lock()
-		r.sitePol[site] = pol
-		r.mu.Unlock()
 	}
+	z := x ^ siteHash ^ (keyHash * 0xbf58476d1ce4e5b9)
+	nontrivial := false
 	switch pol {
 	case OrdSorted:
-		return
 	case OrdReverse:
 		for i, j := 0, n-1; i < j; i, j = i+1, j-1 {
 			swap(i, j)
 		}
+		nontrivial = true
 	case OrdRotate:
-		k := r.Draw("rot:"+site, n)
-		if k == 0 {
-			return
-		}
-		// rotate left by k: three reversals
-		rev := func(a, b int) {
-			for a < b {
-				swap(a, b)
-				a++
-				b--
+		k := int(splitmix(&z) % uint64(n))
+		if k != 0 {
+			rev := func(a, b int) {
+				for a < b {
+					swap(a, b)
+					a++
+					b--
+				}
 			}
+			rev(0, k-1)
+			rev(k, n-1)
+			rev(0, n-1)
+			nontrivial = true
 		}
-		rev(0, k-1)
-		rev(k, n-1)
-		rev(0, n-1)
 	case OrdShuffle:
-		nontrivial := false
 		for i := 0; i < n-1; i++ {
-			j := i + r.Draw("shuf:"+site, n-i)
+			j := i + int(splitmix(&z)%uint64(n-i))
 			if j != i {
 				swap(i, j)
 				nontrivial = true
 			}
 		}
-		if !nontrivial {
-			return
-		}
 	}
 	r.mu.Lock()
-	r.NonCanon[site]++
+	if _, ok := r.siteSeen[site]; !ok {
+		r.siteSeen[site] = pol
+	}
+	if nontrivial {
+		r.NonCanon[site]++
+	}
+	// commutative: the trace digest must not depend on the order of independent decisions
+	r.orderSum += (siteHash ^ keyHash*31 ^ uint64(pol)*0x51ed) * 0x9e3779b97f4a7c15
 	r.mu.Unlock()
+}
+
+func fnv64(s string) uint64 {
+	h := uint64(14695981039346656037)
+	for i := 0; i < len(s); i++ {
+		h ^= uint64(s[i])
+		h *= 1099511628211
+	}
+	return h
 }
 
 // applyPerm rearranges so that new[i] = old[perm[i]].
@@ -416,6 +434,8 @@ func (r *Run) SetSitePolicy(site string, p int) {
 func (r *Run) ResetPolicies() {
 	r.mu.Lock()
 	r.sitePol = map[string]int{}
+	r.siteSeen = map[string]int{}
+	r.schedNo++
 	r.mu.Unlock()
 }
 
@@ -423,11 +443,27 @@ func (r *Run) ResetPolicies() {
 func (r *Run) SitePolicies() map[string]int {
 	r.mu.Lock()
 	defer r.mu.Unlock()
-	m := make(map[string]int, len(r.sitePol))
-	for k, v := range r.sitePol {
+	m := make(map[string]int, len(r.siteSeen))
+	for k, v := range r.siteSeen {
 		m[k] = v
 	}
 	return m
+}
+
+// SetSchedule selects the schedule number map-order decisions are derived from.
+func (r *Run) SetSchedule(n int) {
+	r.mu.Lock()
+	r.schedNo = n
+	r.sitePol = map[string]int{}
+	r.siteSeen = map[string]int{}
+	r.mu.Unlock()
+}
+
+// Schedule returns the current schedule number.
+func (r *Run) Schedule() int {
+	r.mu.Lock()
+	defer r.mu.Unlock()
+	return r.schedNo
 }
 
 // ResetCounters zeroes the per-load budgets (several loads in one run).
